@@ -81,6 +81,7 @@ def run(prog, chk):
     C01_loops.run(prog, chk, reach)
     frontends(prog, chk)
     utf8_boundary(prog, chk)
+    infinite_iterators(prog, chk, reach)
 
 
 def utf8_boundary(prog, chk):
@@ -312,3 +313,70 @@ def frontends(prog, chk):
         for (bb, t, c) in body.call_sites(lambda c: c.path in ("std::process::exit", "std::process::abort")):
             chk.bad("A6.frontend-exit", f"{body.short}:{c.path}", body.where(bb, t.get("line")), f"{c.path} called: the process is terminated instead of returning an error")
     chk.ok("A6.frontend-exit", "none", "-", "no call to process::exit/abort")
+
+
+# ---------------------------------------------------------------------------
+# endless iterators (cycle / repeat): every consumer must pull a bounded number of items
+# ---------------------------------------------------------------------------
+INF_SOURCES = ("std::iter::Iterator::cycle", "std::iter::repeat", "std::iter::repeat_with", "core::iter::repeat", "core::iter::repeat_with")
+STILL_INFINITE = {"map", "map_while", "take_while", "enumerate", "peekable", "by_ref", "inspect", "cloned", "copied", "scan", "step_by", "skip", "chain", "into_iter", "fuse"}
+BOUNDED_PULL = {"next", "nth", "advance_by", "peek", "next_if", "next_if_eq", "size_hint"}
+NOW_FINITE = {"take", "zip"}
+
+
+def infinite_iterators(prog, chk, reach):
+    # functions that hand out an endless iterator
+    src_fns = set()
+    for bid in reach:
+        b = prog.bodies[bid]
+        if b.unit != "svgdx-lib" or b.root:
+            continue
+        if b.call_sites(lambda c: c.decl_path in INF_SOURCES or c.path in INF_SOURCES):
+            it = prog.item(b.path, "fn")
+            if it and ("Iterator" in (it.get("output") or "") or "Cycle" in (it.get("output") or "")):
+                src_fns.add(b.path)
+    n_src = n_use = 0
+    for bid in sorted(reach):
+        b = prog.bodies[bid]
+        if b.unit != "svgdx-lib":
+            continue
+        inf = set()
+        for (bb, t, c) in b.call_sites(lambda c: c.path in src_fns or ((c.decl_path in INF_SOURCES or c.path in INF_SOURCES) and b.path not in src_fns)):
+            inf.add(bb)
+            n_src += 1
+        if not inf:
+            continue
+        changed = True
+        reported = set()
+        while changed:
+            changed = False
+            for (bb, t, c) in b.call_sites(lambda c: c.decl_path.startswith("std::iter::Iterator::") or c.decl_path == "std::iter::IntoIterator::into_iter"):
+                if not t["args"] or bb in inf:
+                    continue
+                o = R.origin(b, t["args"][0], carriers={})
+                if not (o[0] == "call" and o[1] in inf):
+                    continue
+                m = c.decl_path.split("::")[-1]
+                key = f"{b.short}:{m}"
+                if m in STILL_INFINITE:
+                    inf.add(bb)
+                    changed = True
+                elif m in NOW_FINITE or m in BOUNDED_PULL:
+                    if (bb, m) not in reported:
+                        reported.add((bb, m))
+                        n_use += 1
+                        chk.ok("A4.endless-iterator", key + f"@{len(reported)}", b.where(bb, t.get("line")), f"endless iterator consumed by {m}(): a bounded number of items is pulled")
+                else:
+                    if (bb, m) not in reported:
+                        reported.add((bb, m))
+                        n_use += 1
+                        chk.bad("A4.endless-iterator", key, b.where(bb, t.get("line")), f"{b.short}: an endless iterator (cycle/repeat) is fed to Iterator::{m}(), which may pull items until a condition holds that never does (or forever): a value that never satisfies it hangs the transform")
+        # a `for` loop directly over an endless iterator
+        for h, blocks in b.loops.items():
+            for x in blocks:
+                t = b.term(x)
+                if t["k"] == "call" and "fn" in t and Callee(t["fn"]).decl_path == "std::iter::Iterator::next" and t["args"]:
+                    o = R.origin(b, t["args"][0], carriers={})
+                    if o[0] == "call" and o[1] in inf and Callee(o[2]["fn"]).decl_path == "std::iter::IntoIterator::into_iter":
+                        chk.bad("A4.endless-iterator", f"{b.short}:for-loop", b.where(h), f"{b.short}: a `for` loop runs directly over an endless iterator")
+    chk.floor("A4.endless-iterator", n_src, 4, "call producing an endless iterator (attr_split_cycle / cycle)")
